@@ -42,6 +42,7 @@ def run(repo, chk):
     rule_select(repo, chk)
     rule_preen(repo, chk)
     rule_e(chk, base)
+    rule_g(repo, chk)
 
 
 def rule_a(chk, c):
@@ -335,3 +336,34 @@ def rule_e(chk, base):
         rets = [n for n in walk_no_defs(f.node) if isinstance(n, ast.Return)]
         ok = bool(rets) and all(src(r.value) == f'{f.params[1]} in {lst}' for r in rets)
         chk.ob('e', f.ref, f'{name} reports membership of the matching interest list', ok, loc(f, f.node), discr=name, nontrivial=False)
+
+
+GONE_FLAGS = {
+    # poll(2) keeps reporting a descriptor that was closed while registered as POLLNVAL; epoll forgets closed descriptors by itself
+    'Poll': {'POLLHUP', 'POLLERR', 'POLLNVAL'},
+    'EPoll': {'EPOLLHUP', 'EPOLLERR'},
+}
+
+
+def rule_g(repo, chk):
+    chk.rule('C10.g', 'the "descriptor is gone" flag set of each poller covers every condition its system call reports for a dead descriptor '
+                      '(poll: HUP, ERR and NVAL — a closed descriptor is reported as NVAL on every call; epoll: HUP and ERR) and is the set _process tests')
+    for cname, want in GONE_FLAGS.items():
+        c = repo.cls(POLLERS, cname)
+        ini = need(c.methods.get('__init__'), f'C10.g: {cname}.__init__ missing')
+        chk.touch(ini)
+        got = None
+        attr = None
+        for n in walk_no_defs(ini.node):
+            if isinstance(n, ast.Assign) and len(n.targets) == 1 and isinstance(n.targets[0], ast.Attribute) and src(n.targets[0].value) == 'self':
+                names = {w.attr for w in ast.walk(n.value) if isinstance(w, ast.Attribute) and w.attr.isupper()}
+                if names & {'POLLHUP', 'EPOLLHUP'}:
+                    ors_only = all(isinstance(w, (ast.BinOp, ast.Attribute, ast.Name, ast.BitOr, ast.Load)) for w in ast.walk(n.value))
+                    got = names if ors_only else set()
+                    attr = n.targets[0].attr
+        chk.ob('g', c.ref, f'{cname}: dead-descriptor conditions = {sorted(want)}', got is not None and want <= got, loc(ini, ini.node),
+               detail=f'found {sorted(got) if got is not None else None}', discr=f'gone-flags:{cname}')
+        pr = c.methods.get('_process')
+        if pr is not None and attr:
+            used = any(isinstance(w, ast.BinOp) and isinstance(w.op, ast.BitAnd) and f'self.{attr}' in (src(w.left), src(w.right)) for w in ast.walk(pr.node))
+            chk.ob('g', pr.ref, f'_process tests the reported event against self.{attr}', used, loc(pr, pr.node), discr=f'gone-flags-tested:{cname}')
